@@ -332,13 +332,18 @@ void TaskScheduler::WaitForTasks( uint32_t threadNum )
 
 void TaskScheduler::WakeThreads(  int32_t maxToWake_ )
 {
-    if( maxToWake_ > 0 && maxToWake_  < m_NumThreadsWaiting )
+    // The number of waiting threads must be read after the new task has become visible in
+    // the pipe (WaitForTasks() increments the count and then checks the pipes): read it with
+    // an atomic read-modify-write, which is a full barrier, or the load can pass the store of
+    // the write index and miss a thread that is about to sleep.
+    int32_t numThreadsWaiting = AtomicAdd( &m_NumThreadsWaiting, 0 );
+    if( maxToWake_ > 0 && maxToWake_  < numThreadsWaiting )
     {
         SemaphoreSignal( m_NewTaskSemaphore, maxToWake_ );
     }
     else
     {
-        SemaphoreSignal( m_NewTaskSemaphore, m_NumThreadsWaiting );
+        SemaphoreSignal( m_NewTaskSemaphore, numThreadsWaiting );
     }
 }
 
